@@ -394,6 +394,10 @@ def configs(tier):
                         extra='close', traced=traced))
         out.append(dict(rw=(1, 1), n=(4, 0), agf=True, miu=128, size=20,
                         extra='two-senders', traced=traced))
+        # (window 2: the second sender may take its sequence number while the
+        # first has not queued its PDU yet)
+        out.append(dict(rw=(1, 2), n=(4, 0), agf=False, miu=128, size=20,
+                        extra='two-senders', traced=traced))
         out.append(dict(rw=(2, 2), n=(2, 0), agf=True, miu=128, size=20,
                         extra='reconnect', traced=traced, bound=1))
         for agf in (True, False):
